@@ -3,7 +3,7 @@
 use serde_json::Value;
 
 use crate::fw::{Batch, CheckSpec, Finding, Tier, drive};
-use crate::{Args, eng_codec, eng_disk, eng_hist, eng_par, eng_rdf, eng_sched, eng_snap, eng_spill, eng_store, eng_twin, eng_txm, eng_vec};
+use crate::{Args, eng_codec, eng_disk, eng_hist, eng_par, eng_rdf, eng_sched, eng_snap, eng_spill, eng_store, eng_twin, eng_txm, eng_vec, eng_vecmt};
 
 const REAL_TXM: &[&str] = &["grafeo_engine::transaction::TransactionManager (all of manager.rs)"];
 
@@ -337,10 +337,10 @@ fn c18(args: &Args) -> i32 {
         property: "C18",
         check_name: "C18",
         level: "exploration",
-        engine: "VEC",
-        rule: "histories of insert / re-insert of the same id / remove / search / search_with_ef / batch_search over HnswIndex::with_seed with per-run dimension (1,2,3,7,8,9,33), metric (4), m, ef_construction, ef (1..128), magnitude scale (1e-3..1e6), zero vectors and duplicates; after every search: at most k results, distinct ids, every id currently present in the id->vector model, distance equal to the scalar definition computed in f64 (relative tolerance 1e-3), non-decreasing order, batch = one-by-one, non-empty on a non-empty index. Non-trivial = at least one search and >=3 steps; distinct = distinct (configuration, operation list)".into(),
+        engine: "VEC+VECMT",
+        rule: "(VEC, 19 runs in 20) histories of insert / re-insert of the same id / remove / search / search_with_ef / batch_search over HnswIndex::with_seed with per-run dimension (1,2,3,7,8,9,33), metric (4), m, ef_construction, ef (1..128), magnitude scale (1e-3..1e6), zero vectors and duplicates; after every search: at most k results, distinct ids, every id currently present in the id->vector model, distance equal to the scalar definition computed in f64 (relative tolerance 1e-3), non-decreasing order, batch = one-by-one, non-empty on a non-empty index. Non-trivial = at least one search and >=3 steps; distinct = distinct (configuration, operation list). (VECMT, 1 run in 20) 2-3 simulated threads insert into, remove from and search one index at the same time under shuttle (random, PCT 2/3; 12 schedules per scenario quick, 40 thorough) with every lock operation inside hnsw.rs a scheduling point; every id is inserted and removed at most once, so a search may only return ids whose presence window can overlap the call, with true distances, sorted, distinct, at most k; after the threads finish len/contains/get/iter must describe exactly inserted-minus-removed, a wide search returns only such ids and is non-empty on a non-empty index; a deadlock, a panic or no progress within the step bound is a violation".into(),
         real: vec!["grafeo_core::index::vector::{HnswIndex, distance kernels as called by it}"],
-        stub: vec!["std HashMap/HashSet inside hnsw.rs replaced by fixed-hasher containers (cfg(grafeo_verif)) so that entry-point selection after a removal replays exactly"],
+        stub: vec!["std HashMap/HashSet inside hnsw.rs replaced by fixed-hasher containers (cfg(grafeo_verif)) so that entry-point selection after a removal replays exactly", "parking_lot blocking paths and OS threads (VECMT runs only)"],
         assumptions: vec!["cosine distance to/from a zero vector is undefined and not judged".into()],
         unchecked: vec![
             "'returns k whenever at least k are reachable': reachability inside the HNSW graph cannot be computed from outside; the ratio returned/min(k,len) is recorded as a probe, only 'non-empty' is asserted".into(),
@@ -349,7 +349,13 @@ fn c18(args: &Args) -> i32 {
         ],
     };
     let batch = Batch { spec, tier: args.tier, seed: args.seed, runs: runs(args, 20_000, 1_000_000), workers: args.workers };
-    drive(batch, &|seed, _i| eng_vec::run_one(seed, thorough), Some(&eng_vec::minimise), &mut |_| {})
+    let n_sched = if thorough { 40 } else { 12 };
+    drive(
+        batch,
+        &|seed, i| if i % 20 == 19 { eng_vecmt::run_one(seed, "C18", n_sched) } else { eng_vec::run_one(seed, thorough) },
+        Some(&|f: &Finding| if f.replay["engine"] == "VECMT" { eng_vecmt::minimise(f) } else { eng_vec::minimise(f) }),
+        &mut |_| {},
+    )
 }
 
 fn c10(args: &Args) -> i32 {
@@ -428,6 +434,7 @@ pub fn replay_file(path: &str) -> i32 {
         Some("PAR") => eng_par::replay(rep),
         Some("TWIN") => eng_twin::replay(rep),
         Some("VEC") => eng_vec::replay(rep),
+        Some("VECMT") => eng_vecmt::replay(rep, &prop),
         Some("SNAP") => eng_snap::replay(rep),
         Some("CODEC") => eng_codec::replay(rep),
         Some("SPILL") => eng_spill::replay(rep),
